@@ -74,7 +74,14 @@ class E(BaseEvent):
         return len(self.items)
 
 
+class Ov(BaseEvent):
+    """an event class that PINS its event_type (class-level default 'O'): its events carry that name, not the class name 'Ov'"""
+    event_type: str = 'O'
+    name: str = ''
+
+
 EVCLS = {c.__name__: c for c in (P, C, G, X, Y, Z, R, Q, T, E)}
+EVCLS['O'] = Ov
 
 
 class Custom(Exception):
@@ -259,6 +266,11 @@ class World:
                 e = self._lookup(local, op[1])
                 if e is not None:
                     await self._await(who, e)
+            elif k == 'cancel_loop':  # ('cancel_loop', bus): an outsider (a supervisor cancelling all tasks, a test fixture) cancels the bus's background task WITHOUT calling stop()
+                t = getattr(self.buses[op[1]], '_runloop_task', None)
+                self.rec('cancel-loop', who, op[1], t is not None and not t.done())
+                if t is not None:
+                    t.cancel()
             elif k == 'redisp_named':  # ('redisp_named', bus, prefix): dispatch the first existing event whose name starts with prefix to bus (again / as well)
                 e = next((x for nm, x in list(self.events.items()) if nm.startswith(op[2])), None)
                 if e is not None:
@@ -341,8 +353,8 @@ class World:
                     val = await e.event_result(raise_if_any=op[2], raise_if_none=False)
                     self.rec('accessor', who, e.name, op[2], 'value', repr(val)[:40])
                 except asyncio.CancelledError as ex:
-                    if id(ex) not in self.excs:
-                        raise  # this task is being cancelled
+                    if id(ex) not in self.excs and not any(r.error is ex for r in e.event_results.values()):
+                        raise  # this task is being cancelled (the exception is nobody's recorded error)
                     self.rec('accessor', who, e.name, op[2], 'raised', self.exc_name(ex))  # a handler's own CancelledError, re-raised by the accessor
                 except BaseException as ex:
                     self.rec('accessor', who, e.name, op[2], 'raised', self.exc_name(ex))
